@@ -990,11 +990,14 @@ class CallGraph:
             impls[r["trait_item"]].add(r["impl_item"])
         self.impls = impls
         edges = defaultdict(set)  # root -> callee roots
-        via = defaultdict(set)  # (root, callee root) -> kinds
+        direct = defaultdict(set)  # statically resolved calls only (no class-hierarchy closure)
         for r in F.q("SELECT caller, root, decl, res, virt, trait FROM call WHERE cleanup=0"):
             for tgt, kind in self.targets(r["decl"], r["res"], r["virt"], r["trait"]):
                 troot = fns[tgt]["root"]
                 edges[r["root"]].add(troot)
+                if kind == "direct":
+                    direct[r["root"]].add(troot)
+        self.direct = direct
         # address-taken fn items (`.map(Self::f)`) and closures are part of their family already
         for r in F.q("SELECT root, target FROM fnref"):
             t = r["target"]
@@ -1031,9 +1034,12 @@ class CallGraph:
                 out.append((decl, "direct"))
         return out
 
-    def cone(self, roots, cut=(), crates=None, max_depth=None):
-        """families reachable from `roots` without entering a family in `cut`"""
+    def cone(self, roots, cut=(), crates=None, max_depth=None, direct_only=False):
+        """families reachable from `roots` without entering a family in `cut`.
+        direct_only: follow statically resolved calls only (under-approximates dyn/generic dispatch; used where the
+        class-hierarchy closure would connect everything to everything, e.g. command cones)"""
         fns = self.F.fns
+        edges = self.direct if direct_only else self.edges
         cut = set(cut)
         seen = {}
         dq = deque()
@@ -1045,7 +1051,7 @@ class CallGraph:
             x = dq.popleft()
             if max_depth is not None and seen[x] >= max_depth:
                 continue
-            for y in self.edges.get(x, ()):
+            for y in edges.get(x, ()):
                 if y in seen or y in cut:
                     continue
                 if crates and fns[y]["crate"] not in crates:
